@@ -14,9 +14,12 @@ CATALOGUE = json.load(open(os.path.join(HERE, "selftest", "catalogue.json")))
 def main():
     want = set(a.upper() for a in sys.argv[1:] if not a.startswith("-"))
     proof_only = "--proof-only" in sys.argv
+    only = [a.split("=", 1)[1] for a in sys.argv[1:] if a.startswith("--name=")]
     results = []
     for m in CATALOGUE:
         if want and m["pid"] not in want:
+            continue
+        if only and not any(o in m["name"] for o in only):
             continue
         d = tempfile.mkdtemp(prefix="pyvc.mut.", dir="/var/tmp")
         try:
